@@ -145,3 +145,49 @@ def vacuity(chk, families):
             chk.blind("vacuity", fam, "rule family does not behave on the witness crate (fires on the violating instance: %s; silent on its repaired twin: %s) %s" % (fired, quiet, why))
     chk.notes["vacuity_guard"] = out
     return out
+
+
+def says_empty(k, arg):
+    """path condition k holds only when the collection `arg` is empty: is_empty(arg) is true, or len(arg) is 0"""
+    from nx import sym
+    t = k[0]
+
+    def mentions(x):
+        return x == arg or (isinstance(x, tuple) and any(mentions(y) for y in x))
+    if not mentions(t):
+        return False
+    is_len = lambda x: isinstance(x, tuple) and x and (x[0] == "len" or (x[0] == "call" and x[1].endswith("::len")))
+    if t[0] == "call" and "is_empty" in t[1]:
+        return len(k) == 2 and k[1] is True
+    if is_len(t):
+        return len(k) == 3 and k[2] == ((0, 0),)
+    if t[0] in ("eq",) or (t[0] == "bin" and t[1] == "Eq"):
+        xs = t[1:] if t[0] == "eq" else t[2:4]
+        if any(sym.is_c(x) and x[1] == 0 for x in xs) and any(is_len(x) for x in xs):
+            return len(k) == 2 and k[1] is True
+    return False
+
+
+def pre_loop_returns(chk, rule, anchor, prog, fn, head, opaque=None, empty_of=None, empty_ok=None, what="the loop"):
+    """A loop induction says nothing about code that returns instead of entering the loop. Before the loop a function may
+    only (a) fail because a call it made failed — an Err leaf on a path holding a failed step — or (b), when `empty_of` is
+    given, return the value `empty_ok` accepts under a condition that says that collection is empty."""
+    from nx import sym, loops
+    from nx.spec import show
+    try:
+        pre = [(c_, l_) for c_, l_ in loops.paths(loops.entry_env(prog, fn, head, opaque=opaque or ())[1]) if isinstance(l_, tuple) and l_ and l_[0] != "@join"]
+    except sym.Undecided as e:
+        chk.blind(rule, anchor, "code before %s could not be evaluated: %s" % (what, e), fn.where())
+        return
+    bad = []
+    for c_, l_ in pre:
+        failed = [k for k in c_ if len(k) == 3 and k[0][0] == "discr" and k[2] == ((1, 1),) and (k[0][1][0] == "seq" or (k[0][1][0] == "call" and not k[0][1][1].endswith("::next")))]
+        if l_[0] == "adt" and l_[2] == "Err" and failed:
+            continue
+        if l_[0] == "ret" and isinstance(l_[-1], tuple) and l_[-1][0] == "adt" and l_[-1][2] == "Err" and failed:
+            continue
+        if empty_of is not None and any(says_empty(k, empty_of) for k in c_) and (empty_ok is None or empty_ok(l_)):
+            continue
+        bad.append("returns %s when %s" % (show(l_)[:70], "; ".join(show(k[0])[:50] for k in c_)[:150] or "always"))
+    chk.ob(rule, anchor, not bad, "before %s nothing is returned except the failure of a step%s" % (what, " (or the empty result for an empty input)" if empty_of is not None else "") if not bad else
+           "a result is produced without running %s: %s" % (what, "; ".join(bad)[:360]), fn.where(), key="pre-loop-returns")
